@@ -341,7 +341,9 @@ func runC20(c *core.Case) {
 		c.Call()
 		c.KI(idx, s)
 		c.NonTrivial()
-		c.Desc = func() any { return map[string]any{"index": idx, "shift": s, "got": got, "floor(index*2^shift)": want.String()} }
+		c.Desc = func() any {
+			return map[string]any{"index": idx, "shift": s, "got": got, "floor(index*2^shift)": want.String()}
+		}
 		if idx < 0 && s < 0 {
 			c.Tag("shift-negative-index-down")
 		}
@@ -467,7 +469,9 @@ func runC20(c *core.Case) {
 		c.Call()
 		au, bu := a.Unit(), b.Unit()
 		rot := qrot(q, au)
-		c.Desc = func() any { return map[string]any{"start": a, "end": b, "quat": q, "rotated_start_unit": rot, "end_unit": bu} }
+		c.Desc = func() any {
+			return map[string]any{"start": a, "end": b, "quat": q, "rotated_start_unit": rot, "end_unit": bu}
+		}
 		qn := math.Sqrt(q.W*q.W + q.X*q.X + q.Y*q.Y + q.Z*q.Z)
 		if math.IsNaN(qn) || math.Abs(qn-1) > 1e-5 {
 			c.Fail("rotation-unit", nil, "RotateBetweenVector(%v,%v) = %v has norm %v", a, b, q, qn)
